@@ -363,6 +363,37 @@ class C20(Prop):
                         orifice.optimize()
                         log.param = [np.array(x, copy=True) for x in
                                      orifice._parametric['data']]
+                        # history step: the same controller object is asked
+                        # again after the limit was tightened (a limit study
+                        # on one object); the wrapper above checks the flows
+                        # against the limit now in force
+                        if getattr(log, 'last_m', None) is not None \
+                                and not log.violations:
+                            try:
+                                mx = float(np.max(log.last_m))
+                                ti = int(log.types[int(np.argmax(log.last_m))])
+                                dat = log.param[ti]
+                                o = np.argsort(dat[:, 2])
+                                lim2 = float(np.interp(0.8 * mx, dat[o, 2],
+                                                       dat[o, 3])) / 1e6
+                                if lim2 > 0:
+                                    old_lim = orf.get('pressure_drop_limit')
+                                    orf['pressure_drop_limit'] = lim2
+                                    orifice.orifice_input[
+                                        'pressure_drop_limit'] = lim2
+                                    try:
+                                        orifice.distribute()
+                                        log.probe('c20.retightened')
+                                    finally:
+                                        if old_lim is None:
+                                            orf.pop('pressure_drop_limit',
+                                                    None)
+                                        else:
+                                            orf['pressure_drop_limit'] = \
+                                                old_lim
+                            except (Exception, SystemExit) as ex:
+                                log.probe('c20.retighten_'
+                                          + type(ex).__name__)
                 except SystemExit:
                     outcome = 'exit'
                 except simenv.SimDeadlock as e:
